@@ -6,3 +6,7 @@ PROP = "C07"
 
 def run(tier, seed):
     return c01.run(tier, seed, prop=PROP, profile="ctl")
+
+
+def replay(path):
+    return c01.replay(path, prop=PROP)
